@@ -770,7 +770,32 @@ func runHistory(cfg *config, id int, r *hx.Rng, o histOpts) {
 			for k := 0; k < n; k++ {
 				rows = append(rows, genRowValues(r, t, o.bigValues))
 			}
-			if textable(rows) {
+			if r.Chance(1, 4) {
+				// a column list that is a proper subset and / or a permutation of the columns: each value
+				// goes to the column named at its position, every column not named is NULL
+				perm := make([]int, len(t.cols))
+				for i := range perm {
+					perm[i] = i
+				}
+				for i := len(perm) - 1; i > 0; i-- {
+					j := r.Intn(i + 1)
+					perm[i], perm[j] = perm[j], perm[i]
+				}
+				perm = perm[:r.Range(1, len(perm))]
+				var cols []string
+				for _, i := range perm {
+					cols = append(cols, t.cols[i].name)
+				}
+				var sub [][]interface{}
+				for _, row := range rows {
+					var rr []interface{}
+					for _, i := range perm {
+						rr = append(rr, row[i])
+					}
+					sub = append(sub, rr)
+				}
+				d.insertv(t.name, cols, sub)
+			} else if textable(rows) {
 				d.stmt(insertText(t, rows, r.Bool()))
 			} else {
 				var cols []string
@@ -858,7 +883,7 @@ func runDeep(cfg *config, id int, r *hx.Rng, rows int, crashes bool) {
 		case 0:
 			d.stmt(insertText(b, [][]interface{}{genRowValues(r, b, true), genRowValues(r, b, false)}, true))
 		case 1:
-			d.stmt(fmt.Sprintf("UPDATE t1 SET c0 = %d WHERE c0 = %d", -r.Range(1, 9), r.Intn(total)))
+			d.stmt(fmt.Sprintf("UPDATE t1 SET c0 = %d WHERE c0 = %d", 1000000+r.Range(1, 9), r.Intn(total))) // (the grammar has no negative literals)
 		case 2:
 			d.stmt(fmt.Sprintf("DELETE FROM t1 WHERE c0 = %d", r.Intn(total)))
 		case 3:
@@ -882,7 +907,7 @@ func runDeep(cfg *config, id int, r *hx.Rng, rows int, crashes bool) {
 	d.roots()
 	if !crashes {
 		d.reopen()
-		d.stmt(insertText(a, [][]interface{}{{int64(-1)}}, false))
+		d.stmt(insertText(a, [][]interface{}{{int64(2000000)}}, false))
 		d.selectEvery()
 		d.dump()
 		d.roots()
@@ -892,7 +917,7 @@ func runDeep(cfg *config, id int, r *hx.Rng, rows int, crashes bool) {
 	}
 	d.crash()
 	if d.recoverDB() == "ok" {
-		d.stmt(insertText(a, [][]interface{}{{int64(-1)}}, false))
+		d.stmt(insertText(a, [][]interface{}{{int64(2000000)}}, false))
 		d.selectEvery()
 		d.dump()
 		d.roots()
@@ -1393,6 +1418,16 @@ func runLogCrashes(cfg *config, id int, r *hx.Rng) {
 			}
 		}
 		probes := []string{insertText(t, [][]interface{}{probeRow}, false), insertText(t, [][]interface{}{probeRow, probeRow}, false)}
+		// "later statements behave as on an uncrashed database": not only INSERTs
+		switch r.Intn(4) {
+		case 0:
+			probes = append(probes, "UPDATE "+t.name+" SET "+genSet(r, t)+" WHERE "+genWhere(r, t))
+		case 1:
+			probes = append(probes, "DELETE FROM "+t.name+" WHERE "+genWhere(r, t), insertText(t, [][]interface{}{probeRow}, false))
+		case 2:
+			probes = append([]string{fmt.Sprintf("CREATE TABLE px%d (a int, b varchar(255))", s)}, probes...)
+			probes = append(probes, fmt.Sprintf("INSERT INTO px%d VALUES (1, 'p')", s))
+		}
 		d.stmtWithLogCrashPoints(q, probes)
 		d.selectEvery()
 		if r.Chance(1, 3) {
